@@ -97,7 +97,7 @@ DISABLED = {
     "mips": {"not", "mod", "larray"},
     "xtensa": {"xor", "not", "larray", "fewvars"},  # no spill code: loads from the frame are not covered
     "msp430": {"xor", "not", "larray", "bigconst"},
-    "arm:thumb": {"not", "le"},
+    "arm:thumb": {"not"},
     "m68k": {"xor", "mul", "div", "mod", "shift", "loop", "array", "larray", "global", "call", "const", "bigconst",
              "tiny"},
     "avr": set(),
